@@ -30,6 +30,20 @@ def _norm(ix, rel):
     return _NORM[rel]
 
 
+_RAW = {}
+
+
+def _raw(ix, rel):
+    """the module as written (formatting aside): what the index parsed, before sa/normalise.py rewrote it"""
+    if rel not in ix.modules:
+        return None
+    if rel not in _RAW:
+        with warnings.catch_warnings():
+            warnings.simplefilter('ignore')
+            _RAW[rel] = ast.unparse(ast.parse(ix.modules[rel].source))
+    return _RAW[rel]
+
+
 def _statuses(R):
     """{(oid, site, statement): worst status} - several obligations may share
     a key (e.g. four gathers in one function); the worst one represents it."""
@@ -111,7 +125,10 @@ def _one(args):
     ix = _G['ix']
     # variants are written against the *normalised* module text
     # (ast.unparse), so repository formatting does not matter
-    src = _norm(ix, rel)
+    src = _raw(ix, rel)
+    if src is not None and not old.startswith('re:') and old != '\1direct' and src.count(old) != 1 and \
+            (_norm(ix, rel) or '').count(old) == 1:
+        src = _norm(ix, rel)        # a variant written against the normal form of the module
     if src is not None and old == '\1direct':
         msrc = new
     elif src is not None and old.startswith('re:'):
@@ -166,7 +183,7 @@ def _guard_variants(mod, ix):
     for ent in getattr(mod, 'UNCONDITIONAL', []):
         rel, prefix = ent[0], ent[1]
         which = ent[2] if len(ent) > 2 else None        # k-th of several identical statements
-        src = _norm(ix, rel)
+        src = _raw(ix, rel)
         name = 'skip:%s:%s' % (rel.rsplit('/', 1)[-1], prefix[:40])
         if src is None:
             out.append((name, rel, '\0missing', '', None))
